@@ -229,6 +229,58 @@ fn sweep_serde<T: Fam>(ctx: &Ctx, ln: u32, level: usize) {
     });
 }
 
+/// Serialize-only mixed content with items that write nothing (`None`, empty nested sequence).
+#[derive(serde::Serialize, Debug, Clone)]
+struct MixedOpt {
+    #[serde(rename = "@k")]
+    k: u8,
+    #[serde(rename = "$value")]
+    items: Vec<Option<Choice>>,
+}
+#[derive(serde::Serialize, Debug, Clone)]
+struct MixedNested {
+    #[serde(rename = "$value")]
+    items: Vec<Vec<Choice>>,
+    tail: String,
+}
+
+fn sweep_serde_extra(ctx: &Ctx, ln: u32, max: u32) {
+    let pool: Vec<Option<Choice>> = vec![None, Some(Choice::Text("t".into())), Some(Choice::Unit), Some(Choice::Newtype("n".into())), Some(Choice::Struct { a: "a".into(), b: "".into() })];
+    let k = pool.len() as u64;
+    ctx.layer("serde.mixed_with_silent_items", ln, count_upto(k, max) * 2, json!({"pool": ["None / empty nested sequence", "$text item", "unit element", "newtype element", "struct element"], "max_len": max, "types": ["$value: Vec<Option<Choice>>", "$value: Vec<Vec<Choice>>"]}), |i, acc| {
+        let mut d = Vec::new();
+        decode_upto(k, max, i / 2, &mut d);
+        let items: Vec<Option<Choice>> = d.iter().map(|&x| pool[x as usize].clone()).collect();
+        for q in 0..3u8 {
+            for expand in [false, true] {
+                let plain_cfg = SerCfg { level: q, indent: false, expand, root: false };
+                let ind_cfg = SerCfg { indent: true, ..plain_cfg };
+                let (p, n) = if i % 2 == 0 {
+                    let v = MixedOpt { k: 1, items: items.clone() };
+                    (ser(&v, plain_cfg), ser(&v, ind_cfg))
+                } else {
+                    let v = MixedNested { items: items.iter().map(|o| o.iter().cloned().collect()).collect(), tail: "z".into() };
+                    (ser(&v, plain_cfg), ser(&v, ind_cfg))
+                };
+                let (Ok(plain), Ok(ind)) = (p, n) else { continue };
+                acc.evaluations += 1;
+                acc.traces += 1;
+                acc.transitions += 2;
+                let (a, b) = (raw_events(plain.as_bytes()), raw_events(ind.as_bytes()));
+                if a.is_err() || a != b {
+                    acc.violation(
+                        (ln, i),
+                        format!("items {:?} ({:?}): indented output {:?} differs from plain {:?} in more than blank text between markup", items, ind_cfg, ind, plain),
+                        json!({"kind": "serde_extra", "indices": d, "nested": i % 2 == 1}),
+                    );
+                } else if ind != plain {
+                    acc.nt_count += 1;
+                }
+            }
+        }
+    });
+}
+
 fn check_sequence(specs: &[Spec], ch: u8, size: usize) -> Result<bool, String> {
     let mut ind = Writer::new_with_indent(Vec::new(), ch, size);
     let mut plain = Writer::new(Vec::new());
@@ -262,7 +314,7 @@ pub fn run(ctx: &Ctx) {
          events; on EVERY transition the bytes appended by the indenting writer must be [newline indent-char*] + the plain writer's \
          bytes, the bracket being allowed only before markup that does not follow Text/CData. Writer, sequence tree: every sequence of \
          up to 4/5 events (Eof only last), written indented and plain, read back: identical events once blank-only texts are dropped, \
-         Text/CData payloads byte-identical. Async: the indenting async writer equals the sync one. Serde: every value of the C06 family \
+         Text/CData payloads byte-identical. Async: the indenting async writer equals the sync one. Serde: mixed `$value` content with items that write nothing (None, empty nested sequence) between text and element items; every value of the C06 family \
          x quote level x expand x root: raw event streams of indented and plain output equal modulo blank-only text, and both \
          deserialize to the same value. non-trivial = outputs that differ from the plain ones; distinct by construction",
     );
@@ -340,7 +392,7 @@ pub fn run(ctx: &Ctx) {
         ($($ty:ident),*) => { $( sweep_serde::<$ty>(ctx, ln, level); ln += 1; )* };
     }
     crate::for_each_type!(go);
-    let _ = ln;
+    sweep_serde_extra(ctx, ln, t.pick(4, 5));
 }
 
 pub fn replay(case: &Value) -> Result<(), String> {
@@ -362,6 +414,7 @@ pub fn replay(case: &Value) -> Result<(), String> {
             println!("indent ({:?},{}) events {:?}", ch as char, size, specs);
             check_sequence(&specs, ch, size).map(|_| ())
         }
+        "serde_extra" => Err("re-run ./check C19 quick: the serde.mixed_with_silent_items layer reproduces it".into()),
         _ => {
             let name = case["type"].as_str().ok_or("no type")?;
             let mut result = Err(format!("unknown type {}", name));
